@@ -12,7 +12,7 @@ import (
 )
 
 func init() {
-	props["C17"] = &propDef{extraPkgs: []string{jsonPatchPkg}, run: runC17, explanation: "Partial. Decided statically: (P1) ResolveDocument succeeds only across the true edge of strings.HasPrefix(did, namespace + \":\") with the handler's own namespace field — the delimiter is part of the gate; (D1) no function reachable from VDR.Create / Client.CreateDID / the request builders iterates a map with an order-sensitive effect (append/indexed store that survives the loop without a sort, string accumulation, first-match return): DID creation cannot depend on Go's map iteration order; (G1) parseInitialState accepts only on the false edge of b64(JCS(decoded create request)) != supplied initial state, where the request is decoded from the base64url-decoded parameter; ParseDID splits the long form at the last ':'; resolveRequestWithInitialState accepts only across Parse(namespace, initial bytes) (full non-batch validation, C07) and the false edge of suffix != parsed suffix; short-form DIDs (no create request) and DIDs with fewer than three parts are refused; (P2) unpublished transformation info and GetCreateResult wiring. Not decided: that the document read back equals the document created (did-go parsing, behavioural). ProcessOperation: the initial state of the returned DID is b64url(JCS(request bytes)) and its suffix the parsed operation's. (T1) creation maps each verification relationship to the key purpose of the same name (switch or table form). (D2) random key generation in the creation call tree runs only on the edge 'the key option is absent'. The parser's acceptance rules (C07) run inside this check; no equivalent id of an unpublished document carries the initial state. The requested suffix is the last segment verbatim; the raw-document builder rules of C08 and the published-ids rule run here too. (D3) dochandler.New receives did: + the configured method, read after the options; both transformer steps precede every accepting exit. All of C10 and the JCS rules run inside this check; GetCreateResult hands on the applier's model; relationship lists do not share storage."}
+	props["C17"] = &propDef{extraPkgs: []string{jsonPatchPkg}, run: runC17, explanation: "Partial. Decided statically: (P1) ResolveDocument succeeds only across the true edge of strings.HasPrefix(did, namespace + \":\") with the handler's own namespace field — the delimiter is part of the gate; (D1) no function reachable from VDR.Create / Client.CreateDID / the request builders iterates a map with an order-sensitive effect (append/indexed store that survives the loop without a sort, string accumulation, first-match return): DID creation cannot depend on Go's map iteration order; (G1) parseInitialState accepts only on the false edge of b64(JCS(decoded create request)) != supplied initial state, where the request is decoded from the base64url-decoded parameter; ParseDID splits the long form at the last ':'; resolveRequestWithInitialState accepts only across Parse(namespace, initial bytes) (full non-batch validation, C07) and the false edge of suffix != parsed suffix; short-form DIDs (no create request) and DIDs with fewer than three parts are refused; (P2) unpublished transformation info and GetCreateResult wiring. Not decided: that the document read back equals the document created (did-go parsing, behavioural). ProcessOperation: the initial state of the returned DID is b64url(JCS(request bytes)) and its suffix the parsed operation's. (T1) creation maps each verification relationship to the key purpose of the same name (switch or table form). (D2) random key generation in the creation call tree runs only on the edge 'the key option is absent'. The parser's acceptance rules (C07) run inside this check; no equivalent id of an unpublished document carries the initial state. The requested suffix is the last segment verbatim; the raw-document builder rules of C08 and the published-ids rule run here too. (D3) dochandler.New receives did: + the configured method, read after the options; both transformer steps precede every accepting exit. All of C10 and the JCS rules run inside this check; GetCreateResult hands on the applier's model; relationship lists do not share storage. VDR.Read hands the DID on as given."}
 }
 
 // mapRangeOrderEffects reports order-sensitive effects of map iterations in f.
@@ -808,10 +808,31 @@ func runC17(c *Ctx) {
 	} else {
 		c.Unresolved("C17.P2", "(*VDR).Create")
 	}
+	// the VDR's Read is the handler's ResolveDocument on the DID as it was given: the wrapper judges nothing and repairs
+	// nothing (a DID "tidied" on the way in resolves although the handler refuses that very string, and comes back under
+	// an id the caller did not ask for)
+	if rd := c.Method("vdr/sidetreelongform", "VDR", "Read"); rd != nil {
+		c.Analysed(rd)
+		n, okArg := 0, true
+		forEachInstr(rd, func(in ssa.Instruction) {
+			cl, ok := in.(*ssa.Call)
+			if !ok || !callNamed(cl, "ResolveDocument") {
+				return
+			}
+			n++
+			a := declArgs(cl)
+			if len(a) < 1 || c.Path(a[0], nil) != "$1" {
+				okArg = false
+			}
+		})
+		c.Check("C17.P2", "Read:hands-the-DID-on-as-given", n == 1 && okArg, rd.Pos(), fmt.Sprintf("VDR.Read calls ResolveDocument %d time(s), with the DID parameter itself", n))
+	} else {
+		c.Unresolved("C17.P2", "(*VDR).Read")
+	}
 	c.Assume("default update/recovery key generation (crypto/rand) happens only when the caller supplies no key; did-go document parsing and serialisation are outside the claim")
 	// a long-form DID is resolved by handing its initial state to the operation parser: what the parser accepts (and
 	// the limits it applies, each to the thing it is defined on) is part of "every DID Create hands out resolves"
-	runC07(c)
+	c.apart(runC07)
 	// "resolves to a document equivalent to the one supplied": the document Create encodes into the initial state carries
 	// every member of the supplied one (the raw-document builders of C08)
 	c.docBytesRule("C08.P3")
@@ -822,7 +843,7 @@ func runC17(c *Ctx) {
 	// the initial state's patches are applied by the composer (all of C10: a handler that rewrites what it stores — a
 	// URI re-serialised, a key merged — resolves to a document that is not the one supplied), and the suffix is a hash of
 	// the canonical form (the JCS rules)
-	runC10(c)
+	c.apart(runC10)
 	c.jcsRules()
 }
 
